@@ -44,3 +44,30 @@ def parseU64 (s : String) : Option UInt64 := do
   if n < 2^64 then some n.toUInt64 else none
 
 end Driver
+
+namespace Driver
+open Flounder
+
+def boardText (b : Board) : String :=
+  let mask := (if b.castle.wk then 1 else 0) + (if b.castle.wq then 2 else 0) +
+              (if b.castle.bk then 4 else 0) + (if b.castle.bq then 8 else 0)
+  let ep := match b.ep with | some s => toString s | none => "-"
+  let side := match b.active with | .white => "w" | .black => "b"
+  s!"{b.pawns.toNat},{b.knights.toNat},{b.bishops.toNat},{b.rooks.toNat},{b.queens.toNat},{b.kings.toNat},{b.white.toNat},{b.black.toNat},{side},{mask},{ep},{b.halfmove},{b.fullmove}"
+
+def parseBoard (s : String) : Option Board :=
+  match s.splitOn "," with
+  | [p, n, b, r, q, k, w, bl, side, mask, ep, half, full] => do
+    let p ← parseU64 p; let n ← parseU64 n; let b ← parseU64 b; let r ← parseU64 r
+    let q ← parseU64 q; let k ← parseU64 k; let w ← parseU64 w; let bl ← parseU64 bl
+    let side ← (match side with | "w" => some Color.white | "b" => some Color.black | _ => none)
+    let mask ← mask.toNat?
+    let ep ← (if ep == "-" then some none else ep.toNat?.map some)
+    let half ← half.toNat?; let full ← full.toNat?
+    pure { pawns := p, knights := n, bishops := b, rooks := r, queens := q, kings := k, white := w,
+           black := bl, active := side,
+           castle := ⟨mask % 2 == 1, (mask / 2) % 2 == 1, (mask / 4) % 2 == 1, (mask / 8) % 2 == 1⟩,
+           ep := ep, halfmove := half, fullmove := full }
+  | _ => none
+
+end Driver
